@@ -226,6 +226,7 @@ def run(ctx):
     n_pert = n_pert_rej = n_degenerate = 0
     nviol = [0]
     n_attack = [0]
+    n_degenerate_attack = [0]
 
     def viol(obj, msg):
         nviol[0] += 1
@@ -289,6 +290,17 @@ def run(ctx):
                 viol({"case": cs, "attack": ta},
                      "%s: truncated-response attack accepted: a crafted prover that hashes the full statement but commits/responds "
                      "for the statement with one vector item omitted is not rejected (response length check)" % key)
+            for nm, acc in ta.get("padded", []):
+                if acc is False:
+                    continue
+                if cs["variant"] == "identity_generator" and cs["p"] in ("ps_sig_known", "com_eq_sig"):
+                    # the omitted message is tied to the signature only through Y~_i / a_hat, which are identity
+                    # points in this variant: the padded statement component is vacuous (phi not injective)
+                    n_degenerate_attack[0] += 1
+                    continue
+                viol({"case": cs, "attack": ta, "padded_vector": nm},
+                     "%s: truncated-response attack accepted after padding the response vector `%s` back to full length: "
+                     "the verifier checks only some vector lengths and zips the rest" % (key, nm))
         for pe in cs["pert"]:
             nm, rej = pe[0], pe[1]
             same_cm = pe[2] if len(pe) > 2 else False
@@ -463,6 +475,7 @@ def run(ctx):
     ctx.notes["perturbations"] = {"total": n_pert, "rejected": n_pert_rej, "degenerate_accept_identity_base": n_degenerate,
                                   "model_checked": n_pert_corr}
     ctx.notes["truncated_response_attacks_rejected"] = n_attack[0]
+    ctx.notes["padded_attacks_degenerate_identity_points"] = n_degenerate_attack[0]
     ctx.notes["modelled_protocols"] = sorted(MODELLED)
     ctx.notes["oracle_only_protocols"] = sorted(set(dist) - set(MODELLED))
     ctx.cov["samples"] += [{k: v for k, v in cs.items() if k in ("p", "n", "variant", "k", "ctx", "pub", "wit", "chal", "resp")}
